@@ -1,5 +1,5 @@
 import Pds.Proofs.KernelTie.CmsOps
-import Pds.Proofs.KernelTie.Clear
+import Pds.Proofs.KernelTie.ClearCms
 import Pds.Model.CmsHeap
 /-!
 # C10 — tie by translation: the sketch inside `CMSHeap`
